@@ -16,6 +16,7 @@ import (
 	"fmt"
 	"math/big"
 	"sync"
+	"time"
 
 	"github.com/MixinNetwork/mixin/crypto"
 	"github.com/MixinNetwork/mixin/kernel"
@@ -131,6 +132,39 @@ func nresTerm(r result) string {
 	}
 }
 
+// (c) across ALL handles of the run: no two accepted (challenge, response)
+// pairs with different challenges may share a commitment R; the key-recovery
+// formula is attempted on every such pair.
+type acceptedPair struct {
+	ch, s, priv *big.Int
+}
+
+var (
+	registryMu sync.Mutex
+	registry   = map[crypto.Key][]acceptedPair{}
+)
+
+func record(c *vh.Ctx, cs Case, R crypto.Key, ch, s, priv *big.Int) {
+	registryMu.Lock()
+	defer registryMu.Unlock()
+	for _, o := range registry[R] {
+		d := new(big.Int).Sub(ch, o.ch)
+		d.Mod(d, cosih.L)
+		if d.Sign() == 0 {
+			continue
+		}
+		k := new(big.Int).Sub(s, o.s)
+		k.Mul(k, new(big.Int).ModInverse(d, cosih.L)).Mod(k, cosih.L)
+		if k.Cmp(priv) == 0 || k.Cmp(o.priv) == 0 {
+			c.Fail("key-recovered", fmt.Sprintf("two accepted responses to different challenges share the commitment %x: (s1-s2)/(c1-c2) is the signer's private key", R[:8]), cs)
+		} else {
+			c.Fail("commitment-two-challenges", fmt.Sprintf("two accepted responses to different challenges share the commitment %x", R[:8]), cs)
+		}
+		return
+	}
+	registry[R] = append(registry[R], acceptedPair{ch, s, priv})
+}
+
 // oracle over all calls made on one nonce, in any order
 func oracle(c *vh.Ctx, cs Case, w *world, calls []call, res []result) {
 	var c0 *big.Int
@@ -199,6 +233,9 @@ func oracle(c *vh.Ctx, cs Case, w *world, calls []call, res []result) {
 	}
 	if anyValid && c0 == nil {
 		c.Fail("nobody-answered", "no call was answered although the nonce was fresh", cs)
+	}
+	if c0 != nil {
+		record(c, cs, w.nonce.Public(), c0, cosih.LEInt(s0[:]), cosih.LEInt(w.privs[calls[first].priv][:]))
 	}
 	if c0 != nil {
 		// the accepted response is the Schnorr share of some offered private key
@@ -324,6 +361,160 @@ func runRace(c *vh.Ctx, cs Case) {
 			}
 		}
 	}
+}
+
+// ---- construction ------------------------------------------------------------------
+
+// (a) many nonces constructed concurrently (cs.Calls goroutines x cs.N) and
+// sequentially, each from its own reader: all commitments pairwise distinct and
+// each the commitment of its own seed.
+func runConstruct(c *vh.Ctx, cs Case) {
+	r := vh.NewRand(cs.Seed, "c12-construct")
+	type made struct {
+		seed []byte
+		n    *crypto.CosiNonce
+	}
+	total := cs.Calls*cs.N + 2*cs.N
+	all := make([]made, total)
+	for i := range all {
+		all[i].seed = r.Bytes(64)
+	}
+	var wg sync.WaitGroup
+	start := make(chan struct{})
+	for g := 0; g < cs.Calls; g++ {
+		wg.Add(1)
+		go func(g int) {
+			defer wg.Done()
+			<-start
+			for i := 0; i < cs.N; i++ {
+				m := &all[g*cs.N+i]
+				vh.Catch(func() { m.n = crypto.CosiCommitNonce(&seedReader{m.seed}) })
+			}
+		}(g)
+	}
+	close(start)
+	wg.Wait()
+	for i := cs.Calls * cs.N; i < total; i++ { // sequential
+		m := &all[i]
+		vh.Catch(func() { m.n = crypto.CosiCommitNonce(&seedReader{m.seed}) })
+	}
+	seen := map[crypto.Key]int{}
+	ok := true
+	for i := range all {
+		if all[i].n == nil {
+			c.Fail("construct-panic", "CosiCommitNonce panicked", cs)
+			return
+		}
+		R := all[i].n.Public()
+		if j, dup := seen[R]; dup {
+			ok = false
+			c.Fail("duplicate-commitment", fmt.Sprintf("nonces %d and %d built from different random bytes carry the same commitment %x", j, i, R[:8]), cs)
+			crossAnswer(c, cs, r, all[j].n, all[i].n)
+			break
+		}
+		seen[R] = i
+		own := crypto.NewKeyFromSeed(all[i].seed)
+		if own.Public() != R {
+			ok = false
+			c.Fail("nonce-not-own-seed", fmt.Sprintf("nonce %d does not carry the commitment of the random bytes it was built from", i), cs)
+			break
+		}
+	}
+	c.Case("construct", fmt.Sprintf("%+v", cs), ok, cs, "")
+}
+
+// two handles, one private key, two different challenges: what an attacker sees
+func crossAnswer(c *vh.Ctx, cs Case, r *vh.Rand, a, b *crypto.CosiNonce) (ca, cb *big.Int, sa, sb *[32]byte, priv *big.Int) {
+	k, kz := cosih.SeedKey(r)
+	p := k.Public()
+	pubs := []*crypto.Key{&p}
+	do := func(n *crypto.CosiNonce) (*big.Int, *[32]byte) {
+		R := n.Public()
+		cosi, err := crypto.CosiAggregateCommitment(map[int]*crypto.Key{0: &R})
+		if err != nil {
+			return nil, nil
+		}
+		var m crypto.Hash
+		copy(m[:], r.Bytes(32))
+		x, err := cosi.Challenge(pubs, m)
+		if err != nil {
+			return nil, nil
+		}
+		var s *[32]byte
+		vh.Catch(func() { s, _ = n.Response(cosi, &k, pubs, m) })
+		ch := cosih.LEInt(x.Bytes())
+		if s != nil {
+			record(c, cs, R, ch, cosih.LEInt(s[:]), kz)
+		}
+		return ch, s
+	}
+	ca, sa = do(a)
+	cb, sb = do(b)
+	return ca, cb, sa, sb, kz
+}
+
+// (b) the interleaving is pinned: both Reads complete before either derivation
+type pinnedReader struct {
+	seed        []byte
+	mine, other chan struct{}
+}
+
+func (p *pinnedReader) Read(b []byte) (int, error) {
+	n := copy(b, p.seed)
+	close(p.mine)
+	select {
+	case <-p.other:
+	case <-time.After(300 * time.Millisecond): // the constructor serialises its reads: nothing to pin
+	}
+	return n, nil
+}
+
+func runPinned(c *vh.Ctx, cs Case) {
+	r := vh.NewRand(cs.Seed, "c12-pinned")
+	sa := r.Bytes(64)
+	sb := r.Bytes(64)
+	same := cs.Ctx%4 == 0
+	if same {
+		sb = append([]byte{}, sa...)
+	}
+	da, db := make(chan struct{}), make(chan struct{})
+	ra, rb := &pinnedReader{sa, da, db}, &pinnedReader{sb, db, da}
+	var na, nb *crypto.CosiNonce
+	var wg sync.WaitGroup
+	wg.Add(2)
+	go func() { defer wg.Done(); vh.Catch(func() { na = crypto.CosiCommitNonce(ra) }) }()
+	go func() { defer wg.Done(); vh.Catch(func() { nb = crypto.CosiCommitNonce(rb) }) }()
+	wg.Wait()
+	if na == nil || nb == nil {
+		c.Fail("construct-panic", "CosiCommitNonce panicked", cs)
+		return
+	}
+	Ra, Rb := na.Public(), nb.Public()
+	if (Ra == Rb) != same {
+		c.Fail("duplicate-commitment", fmt.Sprintf("two overlapping constructions: seeds equal=%v, commitments equal=%v", same, Ra == Rb), cs)
+	}
+	if same {
+		c.Case("pinned-same-seed", fmt.Sprintf("%+v", cs), true, cs, "")
+		return
+	}
+	ka, kb := crypto.NewKeyFromSeed(sa), crypto.NewKeyFromSeed(sb)
+	ca, cb, ssa, ssb, priv := crossAnswer(c, cs, r, na, nb)
+	term := func(seedKey crypto.Key, ch *big.Int, s *[32]byte) string {
+		obs := "NErr"
+		req := vh.None("Z")
+		if ch != nil {
+			req = vh.Some(cosih.ZB(ch))
+			obs = "NPanic"
+			if s != nil {
+				obs = "(NOk " + cosih.ZB(cosih.LEInt(s[:])) + ")"
+			}
+		}
+		return vh.App("CNonce", cosih.ZB(cosih.LEInt(seedKey[:])), vh.List([]string{"(" + req + ", " + cosih.ZB(priv) + ")"}, "(option Z * Z)"),
+			vh.List([]string{obs}, "nres"))
+	}
+	// each handle answers as the nonce of ITS OWN random bytes (the model knows nothing else)
+	c.Case("pinned", fmt.Sprintf("a|%+v", cs), true, cs, term(ka, ca, ssa))
+	c.Case("pinned", fmt.Sprintf("b|%+v", cs), true, cs, term(kb, cb, ssb))
 }
 
 // ---- retention ---------------------------------------------------------------------
@@ -456,6 +647,10 @@ func run(c *vh.Ctx, cs Case) {
 		runRet(c, cs)
 	case "evict":
 		runEvict(c, cs)
+	case "construct":
+		runConstruct(c, cs)
+	case "pinned":
+		runPinned(c, cs)
 	default:
 		panic("unknown kind " + cs.Kind)
 	}
@@ -467,7 +662,7 @@ func main() {
 		"2..5 challenge contexts (aggregated commitment sets over 2..6 keys x messages; sometimes one whose Challenge() fails), half of the calls " +
 		"on one hot context, private key mostly the signer's; seq: 1..12 sequential calls on handle copies; ret: 10..40 operations on the kernel's " +
 		"CosiRandoms/UsedRandoms maps (prepare fresh nonces / cosiRetrieveRandom over 2..6 snapshot hashes, known and unknown commitments); evict: " +
-		"a binding followed to its eviction at the real retention bound. Non-trivial = at least one call reached the critical section; distinct by scenario."
+		"a binding followed to its eviction at the real retention bound; construct: 16 goroutines x up to 200 plus sequential CosiCommitNonce calls over own readers, commitments pairwise distinct; pinned: two overlapping CosiCommitNonce calls whose readers both complete before either returns, commitments differ iff seeds differ, then each handle answers a different challenge; across all handles of the run no two accepted answers to different challenges share a commitment (key-recovery formula attempted). Non-trivial = at least one call reached the critical section; distinct by scenario."
 	if c.Replay != "" {
 		var cs Case
 		c.ReplayCase(&cs)
@@ -480,13 +675,21 @@ func main() {
 		{Kind: "seq", Seed: 1, N: 2, Calls: 3, Ctx: 1}, {Kind: "seq", Seed: 2, N: 2, Calls: 6, Ctx: 2},
 		{Kind: "seq", Seed: 3, N: 3, Calls: 8, Ctx: 3}, {Kind: "race", Seed: 4, N: 2, Calls: 16, Ctx: 1},
 		{Kind: "race", Seed: 5, N: 3, Calls: 16, Ctx: 2}, {Kind: "ret", Seed: 6, N: 0, Calls: 12}, {Kind: "evict", Seed: 7},
+		{Kind: "construct", Seed: 8, N: 200, Calls: 16}, {Kind: "pinned", Seed: 9, Ctx: 1}, {Kind: "pinned", Seed: 10, Ctx: 4},
+		{Kind: "pinned", Seed: 11, Ctx: 2}, {Kind: "pinned", Seed: 12, Ctx: 3},
 	} {
 		run(c, cs)
 	}
 	n := c.Scale(600, 20000)
 	for i := 0; i < n; i++ {
 		r := c.Rng
-		switch r.Intn(10) {
+		switch r.Intn(11) {
+		case 10:
+			if r.Chance(1, 8) {
+				run(c, Case{Kind: "construct", Seed: r.U64(), N: r.Range(20, 200), Calls: 16})
+			} else {
+				run(c, Case{Kind: "pinned", Seed: r.U64(), Ctx: r.Intn(8)})
+			}
 		case 0, 1, 2, 3, 4:
 			run(c, Case{Kind: "race", Seed: r.U64(), N: r.Range(2, 6), Calls: 16, Ctx: r.Range(2, 5)})
 		case 5, 6, 7:
